@@ -47,9 +47,11 @@ Proof. intros d a; destruct d, a; vm_compute; intros H; try reflexivity; discrim
 
 Lemma api_flag_forces_strict_l : forall d s, strict_mode (propagate_strict true (Some d) s) = true.
 Proof. reflexivity. Qed.
+Lemma api_flag_every_requested_l : forall d s, strict_mode (propagate_strict true d s) = true.
+Proof. reflexivity. Qed.
 Lemma api_flag_off_identity_l : forall d s, propagate_strict false d s = s.
 Proof. reflexivity. Qed.
-Lemma api_flag_untyped_untouched_l : forall b s, propagate_strict b None s = s.
+Lemma api_flag_untyped_untouched_l : forall b s, propagate_strict_old b None s = s.
 Proof. destruct b; reflexivity. Qed.
 
 Lemma set_data_type_conflict_l : forall a b,
